@@ -221,6 +221,11 @@ impl Sx {
     pub fn finish(&mut self) {
         self.check_guards();
     }
+    /// window for the named call (records the name for the report)
+    pub fn op(&mut self, name: &'static str, q: impl FnOnce() -> usize) -> &mut poulpy_hal::layouts::Scratch<B> {
+        LAST_OP.with(|l| l.set(name));
+        self.get(q)
+    }
 }
 
 fn larger<'a>(x: &'a CKKSCiphertext<Vec<u8>>, y: &'a CKKSCiphertext<Vec<u8>>) -> &'a CKKSCiphertext<Vec<u8>> {
@@ -621,9 +626,12 @@ fn run_program_inner(c: &Case, sx: &mut Sx, dump: &mut Vec<Option<(usize, usize,
                 let ptld = (ld as usize).clamp(8, p.ld_max);
                 let ptlb = (ptlb as usize).clamp(3, 10);
                 let prec = CKKSMeta { log_delta: ptld, log_budget: ptlb };
-                let pt_max_k = (ptld + ptlb).next_multiple_of(b);
                 // kind: 0 add vector, 1 sub vector, 2 mul vector, 3 add constant, 4 mul constant, 5 sub constant
                 let k5 = kind % 6;
+                // vector forms through a caller-built ZNX plaintext whose buffer holds `wide` limbs more than its metadata needs
+                let znx_sel = k5 <= 2 && (seed >> 7) & 1 == 1;
+                let wide = if znx_sel { ((seed >> 8) % 3) as usize } else { 0 };
+                let pt_max_k = (ptld + ptlb + wide * b).next_multiple_of(b);
                 let (pre, pim) = gen_slots(m, p2((seed % 3) as i64) * 0.9, seed);
                 // quantised plaintext values (what the encoder + to_znx produce, up to N/2 * 2^-ptld)
                 // constant forms: (re, im), re only, im only, neither
@@ -693,7 +701,73 @@ fn run_program_inner(c: &Case, sx: &mut Sx, dump: &mut Vec<Option<(usize, usize,
                 let mut rnx = CKKSPlaintextVecRnx::<f64>::alloc(n).unwrap();
                 cx.encoder.encode_reim(&mut rnx, &pre, &pim).unwrap();
                 let cst = CKKSPlaintextCstRnx::<f64>::new(cre_o, cim);
-                if assign {
+                // vector forms: also through a caller-built ZNX plaintext, whose buffer may hold more limbs than its
+                // metadata needs (alloc with a larger budget + set_meta_checked, as documented for manual buffers)
+                let znx_form: Option<poulpy_ckks::layouts::plaintext::CKKSPlaintextVecZnx<Vec<u8>>> = if znx_sel {
+                    let mut z = alloc_pt_vec_znx((n as u32).into(), (b as u32).into(), CKKSMeta { log_delta: ptld, log_budget: ptlb + wide * b });
+                    z.set_meta_checked(prec).unwrap();
+                    rnx.to_znx(&mut z).unwrap();
+                    classes.push(if wide == 0 { "znx_plaintext_minimal_buffer" } else { "znx_plaintext_wider_buffer" });
+                    Some(z)
+                } else {
+                    None
+                };
+                if let Some(z) = &znx_form {
+                    // name the call as it is made (the step's generic name is the RNX form)
+                    LAST_OP.with(|l| {
+                        l.set(match (k5, assign, wide > 0) {
+                            (0, false, _) => "ckks_add_pt_vec_znx_into",
+                            (0, true, _) => "ckks_add_pt_vec_znx_assign",
+                            (1, false, _) => "ckks_sub_pt_vec_znx_into",
+                            (1, true, _) => "ckks_sub_pt_vec_znx_assign",
+                            (_, false, false) => "ckks_mul_pt_vec_znx_into",
+                            (_, true, false) => "ckks_mul_pt_vec_znx_assign",
+                            (_, false, true) => "ckks_mul_pt_vec_znx_into[plaintext_buffer_wider_than_its_metadata]",
+                            (_, true, true) => "ckks_mul_pt_vec_znx_assign[plaintext_buffer_wider_than_its_metadata]",
+                        })
+                    });
+                    if assign {
+                        let me = regs[a as usize % 4].as_mut().unwrap();
+                        let before = me.ct.meta();
+                        let sc = sx.get(|| match k5 {
+                            0 => md.ckks_add_pt_vec_znx_tmp_bytes(),
+                            1 => md.ckks_sub_pt_vec_znx_tmp_bytes(),
+                            _ => md.ckks_mul_pt_vec_znx_tmp_bytes(&me.ct, &me.ct, &prec),
+                        });
+                        let r = match k5 {
+                            0 => md.ckks_add_pt_vec_znx_assign(&mut me.ct, z, sc),
+                            1 => md.ckks_sub_pt_vec_znx_assign(&mut me.ct, z, sc),
+                            _ => md.ckks_mul_pt_vec_znx_assign(&mut me.ct, z, sc),
+                        };
+                        if r.is_err() && me.ct.meta() != before {
+                            return fail(step, op, "metadata-changed-on-error", format!("in-place operation (ZNX plaintext) failed but the metadata went from {before:?} to {:?}", me.ct.meta()));
+                        }
+                        if r.is_ok() {
+                            if let Some(sh) = res_sh {
+                                me.sh = sh;
+                            }
+                        }
+                        got = Some(r);
+                    } else {
+                        let mut ct = alloc((cap / b) as u8);
+                        let sc = sx.get(|| match k5 {
+                            0 => md.ckks_add_pt_vec_znx_tmp_bytes(),
+                            1 => md.ckks_sub_pt_vec_znx_tmp_bytes(),
+                            _ => md.ckks_mul_pt_vec_znx_tmp_bytes(&ct, &ra.ct, &prec),
+                        });
+                        let r = match k5 {
+                            0 => md.ckks_add_pt_vec_znx_into(&mut ct, &ra.ct, z, sc),
+                            1 => md.ckks_sub_pt_vec_znx_into(&mut ct, &ra.ct, z, sc),
+                            _ => md.ckks_mul_pt_vec_znx_into(&mut ct, &ra.ct, z, sc),
+                        };
+                        if r.is_ok() {
+                            if let Some(sh) = res_sh {
+                                new_reg = Some((dsti, Reg { ct, sh }));
+                            }
+                        }
+                        got = Some(r);
+                    }
+                } else if assign {
                     let me = regs[a as usize % 4].as_mut().unwrap();
                     let before = me.ct.meta();
                     let sc = sx.get(|| match k5 {
@@ -913,6 +987,45 @@ pub fn run_c12(c: &Case) -> Verdict {
     Verdict::pass(nonzero >= 1, &cl)
 }
 
+/// C12 (CKKS layer), composite operations: the composite call under test once on roomy scratch and twice on a window of
+/// exactly its own query (two fills).  The C16 oracle of the case (bit identity with the chain of primitives, budget
+/// algebra, decoded slots) must give the same verdict in the three runs.
+pub fn run_c12_composite(c: &CompCase) -> Verdict {
+    use pzv_common::driver::{guarded, panic_sig};
+    let cx = ctx(c.pset as usize % 2);
+    let mut s0 = Sx::new(false, 0, cx.scratch_bytes);
+    let v0 = match guarded(|| run_composite_sx(c, &mut s0)) {
+        Ok(v) => v,
+        Err(_) => return Verdict::pass(false, &[B_NAME, "skipped:reference_run_fails(C16)"]),
+    };
+    let classes0 = match &v0 {
+        Verdict::Pass(i) => i.classes.clone(),
+        Verdict::Fail { .. } => return Verdict::pass(false, &[B_NAME, "skipped:reference_run_fails(C16)"]),
+    };
+    let mut nonzero = 0usize;
+    for fill in [0x1111_2222_3333_4444u64, 0xDEAD_BEEF_0BAD_F00D] {
+        let mut sx = Sx::new(true, fill, cx.scratch_bytes);
+        LAST_OP.with(|l| l.set("composite"));
+        let r = guarded(|| run_composite_sx(c, &mut sx));
+        let op = LAST_OP.with(|l| l.get());
+        match r {
+            Err(p) => return Verdict::fail(format!("{op}|exact-scratch-panic|{}", panic_sig(&p)), format!("backend={B_NAME} {op}: panicked with a scratch window of exactly the bytes of its own *_tmp_bytes query (the same call runs with ample scratch): {p}\ncase={c:?}")),
+            Ok(v) => {
+                sx.finish();
+                if sx.guard_damaged {
+                    return Verdict::fail(format!("{op}|guard-damaged"), format!("backend={B_NAME}: bytes outside the exact scratch window of {op} were modified\ncase={c:?}"));
+                }
+                if let Verdict::Fail { sig, detail } = v {
+                    return Verdict::fail(format!("{op}|result-depends-on-scratch-size-or-content"), format!("backend={B_NAME}: the case passes the C16 oracle with ample scratch and fails it when {op} gets exactly its queried bytes: {sig}: {detail}"));
+                }
+                nonzero = nonzero.max(sx.nonzero_windows);
+            }
+        }
+    }
+    let cl: Vec<&str> = classes0.iter().map(|x| x.as_str()).collect();
+    Verdict::pass(nonzero >= 1, &cl)
+}
+
 /// C10 (CKKS layer): the program with the FFT64 parameter set of the case on this backend; returns the C16 verdict and the final registers.
 pub fn run_fft_params(c: &Case) -> (Verdict, Vec<Option<(usize, usize, Vec<i64>)>>) {
     let cx = ctx(c.pset as usize % 2 + 2);
@@ -988,6 +1101,14 @@ fn same_result(x: &anyhow::Result<()>, y: &anyhow::Result<()>) -> bool {
 }
 
 pub fn run_composite(c: &CompCase) -> Verdict {
+    let cx = ctx(c.pset as usize % 2);
+    let mut sx = Sx::new(false, 0, cx.scratch_bytes);
+    run_composite_sx(c, &mut sx)
+}
+
+/// `sx` decides what the composite call under test gets (roomy scratch, or exactly its own query); the reference
+/// chains through the primitives always run on roomy scratch.
+pub fn run_composite_sx(c: &CompCase, sx: &mut Sx) -> Verdict {
     use poulpy_ckks::leveled::{CKKSAddManyOps, CKKSDotProductOps, CKKSMulAddOps, CKKSMulManyOps, CKKSMulSubOps};
     let cx = ctx(c.pset as usize % 2);
     let p = cx.p;
@@ -996,7 +1117,6 @@ pub fn run_composite(c: &CompCase) -> Verdict {
     let nf = n as f64;
     let hw = p.hw as f64;
     let md = &cx.module;
-    let mut sx = Sx::new(false, 0, cx.scratch_bytes);
     let kind = c.kind as usize % COMP_KINDS.len();
     let name = COMP_KINDS[kind];
     let fail = |what: &str, d: String| Verdict::fail(format!("{name}|{what}"), format!("backend={B_NAME} {name}: {d}\ncase={c:?}"));
@@ -1007,7 +1127,7 @@ pub fn run_composite(c: &CompCase) -> Verdict {
         let o = &c.operands[i % c.operands.len()];
         // dot products / products of many / sums want a common log_delta per side
         let ld = if (6..=8).contains(&kind) { c.operands[i % 2].1 } else { o.1 };
-        match fresh_reg(cx, &mut sx, o.0, ld, o.2, o.3, c.seed ^ (i as u64 * 0x9E37)) {
+        match fresh_reg(cx, sx, o.0, ld, o.2, o.3, c.seed ^ (i as u64 * 0x9E37)) {
             Some(mut r) => {
                 let _ = md.ckks_compact_limbs(&mut r.ct);
                 regs.push(r);
@@ -1017,6 +1137,11 @@ pub fn run_composite(c: &CompCase) -> Verdict {
     }
     let alloc = |limbs: u8| CKKSCiphertext::alloc((n as u32).into(), ((limbs.clamp(1, 10) as usize * b) as u32).into(), (b as u32).into());
     let mut cl: Vec<&str> = vec![name, B_NAME];
+    // the queries see one ciphertext layout: the widest among the destination and the operands
+    let widest = |dst: &CKKSCiphertext<Vec<u8>>, ins: &[&CKKSCiphertext<Vec<u8>>]| -> CKKSCiphertext<Vec<u8>> {
+        let k = ins.iter().map(|x| x.max_k().as_usize()).chain(std::iter::once(dst.max_k().as_usize())).max().unwrap();
+        CKKSCiphertext::alloc((n as u32).into(), (k as u32).into(), (b as u32).into())
+    };
     let key_noise = |sp: usize| -> f64 { 4.0 * sp as f64 * p2(b as i64) * nf * 21.0 * p2(-(cx.key_k as i64)) * (1.0 + hw) + 4.0 * (1.0 + hw) * p2(-((cx.key_size * b) as i64)) };
     match kind {
         0..=5 => {
@@ -1029,13 +1154,14 @@ pub fn run_composite(c: &CompCase) -> Verdict {
                 let _ = md.ckks_compact_limbs(&mut r.ct);
                 Some(r.ct)
             };
-            let (Some(mut dst1), Some(mut dst2)) = (mk_dst(&mut sx), mk_dst(&mut sx)) else {
+            let (Some(mut dst1), Some(mut dst2)) = (mk_dst(sx), mk_dst(sx)) else {
                 return Verdict::pass(false, &[name, "skipped:operand_not_encodable"]);
             };
             if raw_of(&dst1) != raw_of(&dst2) {
                 return fail("harness", "the two copies of the destination differ".into());
             }
             let mut tmp = CKKSCiphertext::alloc((n as u32).into(), dst1.max_k(), (b as u32).into());
+            let wl = widest(&dst1, &[&a.ct, &bb.ct]);
             let ptld = (c.operands[0].1 as usize).clamp(8, p.ld_max);
             let prec = CKKSMeta { log_delta: ptld, log_budget: (c.operands[0].2 as usize).clamp(3, 10) };
             let (pre, pim) = gen_slots(m, 0.9, c.seed ^ 0x77);
@@ -1049,16 +1175,16 @@ pub fn run_composite(c: &CompCase) -> Verdict {
             };
             let none_const = c.seed % 4 == 3;
             let (r1, r2): (anyhow::Result<()>, anyhow::Result<()>) = match kind {
-                0 => (md.ckks_mul_add_ct_into(&mut dst1, &a.ct, &bb.ct, &cx.tsk, sx.roomy()), md.ckks_mul_into(&mut tmp, &a.ct, &bb.ct, &cx.tsk, sx.roomy()).and_then(|_| md.ckks_add_assign(&mut dst2, &tmp, sx.roomy()))),
-                1 => (md.ckks_mul_sub_ct_into(&mut dst1, &a.ct, &bb.ct, &cx.tsk, sx.roomy()), md.ckks_mul_into(&mut tmp, &a.ct, &bb.ct, &cx.tsk, sx.roomy()).and_then(|_| md.ckks_sub_assign(&mut dst2, &tmp, sx.roomy()))),
-                2 => (md.ckks_mul_add_pt_vec_rnx_into(&mut dst1, &a.ct, &rnx, prec, sx.roomy()), md.ckks_mul_pt_vec_rnx_into(&mut tmp, &a.ct, &rnx, prec, sx.roomy()).and_then(|_| md.ckks_add_assign(&mut dst2, &tmp, sx.roomy()))),
-                3 => (md.ckks_mul_sub_pt_vec_rnx_into(&mut dst1, &a.ct, &rnx, prec, sx.roomy()), md.ckks_mul_pt_vec_rnx_into(&mut tmp, &a.ct, &rnx, prec, sx.roomy()).and_then(|_| md.ckks_sub_assign(&mut dst2, &tmp, sx.roomy()))),
+                0 => (md.ckks_mul_add_ct_into(&mut dst1, &a.ct, &bb.ct, &cx.tsk, sx.op("ckks_mul_add_ct_into", || md.ckks_mul_add_ct_tmp_bytes(&wl, &cx.tsk))), md.ckks_mul_into(&mut tmp, &a.ct, &bb.ct, &cx.tsk, sx.roomy()).and_then(|_| md.ckks_add_assign(&mut dst2, &tmp, sx.roomy()))),
+                1 => (md.ckks_mul_sub_ct_into(&mut dst1, &a.ct, &bb.ct, &cx.tsk, sx.op("ckks_mul_sub_ct_into", || md.ckks_mul_sub_ct_tmp_bytes(&wl, &cx.tsk))), md.ckks_mul_into(&mut tmp, &a.ct, &bb.ct, &cx.tsk, sx.roomy()).and_then(|_| md.ckks_sub_assign(&mut dst2, &tmp, sx.roomy()))),
+                2 => (md.ckks_mul_add_pt_vec_rnx_into(&mut dst1, &a.ct, &rnx, prec, sx.op("ckks_mul_add_pt_vec_rnx_into", || md.ckks_mul_add_pt_vec_rnx_tmp_bytes(&wl, &wl, &prec))), md.ckks_mul_pt_vec_rnx_into(&mut tmp, &a.ct, &rnx, prec, sx.roomy()).and_then(|_| md.ckks_add_assign(&mut dst2, &tmp, sx.roomy()))),
+                3 => (md.ckks_mul_sub_pt_vec_rnx_into(&mut dst1, &a.ct, &rnx, prec, sx.op("ckks_mul_sub_pt_vec_rnx_into", || md.ckks_mul_sub_pt_vec_rnx_tmp_bytes(&wl, &wl, &prec))), md.ckks_mul_pt_vec_rnx_into(&mut tmp, &a.ct, &rnx, prec, sx.roomy()).and_then(|_| md.ckks_sub_assign(&mut dst2, &tmp, sx.roomy()))),
                 4 => (
-                    md.ckks_mul_add_pt_const_rnx_into(&mut dst1, &a.ct, &cst, prec, sx.roomy()),
+                    md.ckks_mul_add_pt_const_rnx_into(&mut dst1, &a.ct, &cst, prec, sx.op("ckks_mul_add_pt_const_rnx_into", || md.ckks_mul_add_pt_const_tmp_bytes(&wl, &wl, &prec))),
                     if none_const { Ok(()) } else { md.ckks_mul_pt_const_rnx_into(&mut tmp, &a.ct, &cst, prec, sx.roomy()).and_then(|_| md.ckks_add_assign(&mut dst2, &tmp, sx.roomy())) },
                 ),
                 _ => (
-                    md.ckks_mul_sub_pt_const_rnx_into(&mut dst1, &a.ct, &cst, prec, sx.roomy()),
+                    md.ckks_mul_sub_pt_const_rnx_into(&mut dst1, &a.ct, &cst, prec, sx.op("ckks_mul_sub_pt_const_rnx_into", || md.ckks_mul_sub_pt_const_tmp_bytes(&wl, &wl, &prec))),
                     if none_const { Ok(()) } else { md.ckks_mul_pt_const_rnx_into(&mut tmp, &a.ct, &cst, prec, sx.roomy()).and_then(|_| md.ckks_sub_assign(&mut dst2, &tmp, sx.roomy())) },
                 ),
             };
@@ -1074,7 +1200,7 @@ pub fn run_composite(c: &CompCase) -> Verdict {
             // sum of n ciphertexts: metadata of the chain of additions; slots within the accumulated bound
             let ins: Vec<&CKKSCiphertext<Vec<u8>>> = regs[..nterms].iter().map(|r| &r.ct).collect();
             let mut dst = alloc(c.dst_limbs);
-            let r1 = md.ckks_add_many(&mut dst, &ins, sx.roomy());
+            let r1 = md.ckks_add_many(&mut dst, &ins, sx.op("ckks_add_many", || md.ckks_add_many_tmp_bytes()));
             // reference: the same sum through the two-operand forms
             let mut refd = alloc(c.dst_limbs);
             let r2: anyhow::Result<()> = if nterms == 1 {
@@ -1100,7 +1226,7 @@ pub fn run_composite(c: &CompCase) -> Verdict {
                     return fail("metadata-exceeds-stored-precision", format!("log_delta + log_budget = {} > {}", dst.log_delta() + dst.log_budget(), dst.max_k().as_usize()));
                 }
                 let mag: f64 = regs[..nterms].iter().map(|r| r.sh.mag()).sum();
-                if let (Some((re, im)), true) = (slots_of(cx, &mut sx, &dst, mag), mag * 8.0 < p2(dst.log_budget() as i64)) {
+                if let (Some((re, im)), true) = (slots_of(cx, sx, &dst, mag), mag * 8.0 < p2(dst.log_budget() as i64)) {
                     let tol: f64 = regs[..nterms].iter().map(|r| 2.0 * r.sh.err).sum::<f64>() + nterms as f64 * nf * (8.0 * (1.0 + hw) * p2(-(dst.max_k().as_usize() as i64)) * p2(dst.log_budget() as i64) + 4.0 * p2(-(dst.log_delta() as i64)));
                     for i in 0..m {
                         let (wr, wi): (f64, f64) = (regs[..nterms].iter().map(|r| r.sh.re[i]).sum(), regs[..nterms].iter().map(|r| r.sh.im[i]).sum());
@@ -1120,7 +1246,8 @@ pub fn run_composite(c: &CompCase) -> Verdict {
             let ains: Vec<&CKKSCiphertext<Vec<u8>>> = avec.iter().map(|r| &r.ct).collect();
             let bins: Vec<&CKKSCiphertext<Vec<u8>>> = bvec.iter().map(|r| &r.ct).collect();
             let mut dst = alloc(c.dst_limbs);
-            let r1 = md.ckks_dot_product_ct(&mut dst, &ains, &bins, &cx.tsk, sx.roomy());
+            let wl = widest(&dst, &[ains.clone(), bins.clone()].concat());
+            let r1 = md.ckks_dot_product_ct(&mut dst, &ains, &bins, &cx.tsk, sx.op("ckks_dot_product_ct", || md.ckks_dot_product_ct_tmp_bytes(nterms, &wl, &cx.tsk)));
             // model of the budget algebra (same as one product, with the smallest budgets of each side)
             let (a_ld, b_ld) = (avec[0].sh.ld, bvec[0].sh.ld);
             let (a_lb, b_lb) = (avec.iter().map(|r| r.sh.lb).min().unwrap(), bvec.iter().map(|r| r.sh.lb).min().unwrap());
@@ -1140,7 +1267,7 @@ pub fn run_composite(c: &CompCase) -> Verdict {
                     }
                     let mag: f64 = (0..nterms).map(|i| avec[i].sh.mag() * bvec[i].sh.mag()).sum();
                     if mag * 8.0 < p2(lb as i64) && ld >= 8 {
-                        if let Some((re, im)) = slots_of(cx, &mut sx, &dst, mag) {
+                        if let Some((re, im)) = slots_of(cx, sx, &dst, mag) {
                             let mut tol = 0.0;
                             for i in 0..nterms {
                                 let (x, y) = (&avec[i].sh, &bvec[i].sh);
@@ -1204,10 +1331,11 @@ pub fn run_composite(c: &CompCase) -> Verdict {
             let bins: Vec<&CKKSCiphertext<Vec<u8>>> = others.iter().map(|r| &r.ct).collect();
             let mut dst1 = alloc(c.dst_limbs);
             let mut dst2 = alloc(c.dst_limbs);
+            let wl = widest(&dst1, &[ains.clone(), bins.clone()].concat());
             let r1: anyhow::Result<()> = match kind {
-                9 => md.ckks_dot_product_pt_vec_rnx(&mut dst1, &ains, &rnxs.iter().collect::<Vec<_>>(), prec, sx.roomy()),
-                10 => md.ckks_dot_product_pt_const_rnx(&mut dst1, &ains, &csts.iter().collect::<Vec<_>>(), prec, sx.roomy()),
-                _ => md.ckks_dot_product_ct(&mut dst1, &ains, &bins, &cx.tsk, sx.roomy()),
+                9 => md.ckks_dot_product_pt_vec_rnx(&mut dst1, &ains, &rnxs.iter().collect::<Vec<_>>(), prec, sx.op("ckks_dot_product_pt_vec_rnx", || md.ckks_dot_product_pt_vec_rnx_tmp_bytes(&wl, &wl, &prec))),
+                10 => md.ckks_dot_product_pt_const_rnx(&mut dst1, &ains, &csts.iter().collect::<Vec<_>>(), prec, sx.op("ckks_dot_product_pt_const_rnx", || md.ckks_dot_product_pt_const_tmp_bytes(&wl, &wl, &prec))),
+                _ => md.ckks_dot_product_ct(&mut dst1, &ains, &bins, &cx.tsk, sx.op("ckks_dot_product_ct", || md.ckks_dot_product_ct_tmp_bytes(nterms, &wl, &cx.tsk))),
             };
             let term = |i: usize, out: &mut CKKSCiphertext<Vec<u8>>, sx: &mut Sx| -> anyhow::Result<()> {
                 match kind {
@@ -1216,13 +1344,13 @@ pub fn run_composite(c: &CompCase) -> Verdict {
                     _ => md.ckks_mul_into(out, ains[i], bins[i], &cx.tsk, sx.roomy()),
                 }
             };
-            let mut r2 = term(0, &mut dst2, &mut sx);
+            let mut r2 = term(0, &mut dst2, sx);
             for i in 1..nterms {
                 if r2.is_err() {
                     break;
                 }
                 let mut tmp = alloc(c.dst_limbs);
-                r2 = term(i, &mut tmp, &mut sx);
+                r2 = term(i, &mut tmp, sx);
                 if r2.is_ok() {
                     r2 = md.ckks_add_assign(&mut dst2, &tmp, sx.roomy());
                 }
@@ -1241,7 +1369,7 @@ pub fn run_composite(c: &CompCase) -> Verdict {
                 }
                 // same torus values up to the last-limb roundings of the intermediate normalisations
                 let mag: f64 = terms.iter().map(|r| r.sh.mag()).sum::<f64>().max(1.0) * 2.0;
-                if let (Some((re1, im1)), Some((re2, im2))) = (slots_of(cx, &mut sx, &dst1, mag), slots_of(cx, &mut sx, &dst2, mag)) {
+                if let (Some((re1, im1)), Some((re2, im2))) = (slots_of(cx, sx, &dst1, mag), slots_of(cx, sx, &dst2, mag)) {
                     let tol = nterms as f64 * nf * (16.0 * (1.0 + hw) * p2(-(dst1.max_k().as_usize() as i64)) * p2(dst1.log_budget() as i64) + 8.0 * p2(-(dst1.log_delta() as i64)));
                     for i in 0..m {
                         let d = (re1[i] - re2[i]).hypot(im1[i] - im2[i]);
@@ -1261,7 +1389,8 @@ pub fn run_composite(c: &CompCase) -> Verdict {
             // product of n ciphertexts with a common log_delta: value and invariants
             let ins: Vec<&CKKSCiphertext<Vec<u8>>> = regs[..nterms].iter().map(|r| &r.ct).collect();
             let mut dst = alloc(c.dst_limbs);
-            let r1 = md.ckks_mul_many(&mut dst, &ins, &cx.tsk, sx.roomy());
+            let wl = widest(&dst, &ins);
+            let r1 = md.ckks_mul_many(&mut dst, &ins, &cx.tsk, sx.op("ckks_mul_many", || md.ckks_mul_many_tmp_bytes(ins.len(), &wl, &cx.tsk)));
             if r1.is_ok() {
                 let (ld, lb) = (dst.log_delta(), dst.log_budget());
                 if ld + lb > dst.max_k().as_usize() {
@@ -1272,7 +1401,7 @@ pub fn run_composite(c: &CompCase) -> Verdict {
                 }
                 let mag: f64 = regs[..nterms].iter().map(|r| r.sh.mag().max(1e-9)).product();
                 if mag * 8.0 < p2(lb as i64) && ld >= 8 {
-                    if let Some((re, im)) = slots_of(cx, &mut sx, &dst, mag) {
+                    if let Some((re, im)) = slots_of(cx, sx, &dst, mag) {
                         // relative error of a product of n factors: sum of the relative errors of the factors and of the n-1 products
                         let mut rel = 0.0;
                         for r in &regs[..nterms] {
